@@ -191,6 +191,15 @@ type ctxKey string
 
 const ctxClient ctxKey = "verif-client"
 
+// ClientOf names the client (browser) a backend call is made for ("" when the
+// call carries no request context, e.g. the hasher).
+func ClientOf(ctx context.Context) string {
+	if v, ok := ctx.Value(ctxClient).(string); ok {
+		return v
+	}
+	return ""
+}
+
 func (s *Store) call(ctx context.Context, kind, key string) error {
 	c := Call{kind, key}
 	if g := s.gate; g != nil {
